@@ -142,7 +142,7 @@ mut("M21", "C20", "output streamed with json.dump again (partial array before an
     (P + "cli.py", "    args.output.write(result)\n", "    del result\n    json.dump(values, args.output, indent=indent)\n"),
 ])
 mut("M22", "C20", "evaluation error swallowed: exit status 0", [
-    (P + "cli.py", "    except JSONPathError as err:\n        if args.debug:\n            raise\n        sys.stderr.write(f\"error: {err}\\n\")\n        sys.exit(1)\n\n    indent =", "    except JSONPathError as err:\n        if args.debug:\n            raise\n        sys.stderr.write(f\"error: {err}\\n\")\n        sys.exit(0)\n\n    indent ="),
+    (P + "cli.py", "    except JSONPathError as err:\n        if args.debug:\n            raise\n        sys.stderr.write(f\"error: {err}\\n\")\n        sys.exit(1)\n    except RecursionError as err:\n        # Each segment", "    except JSONPathError as err:\n        if args.debug:\n            raise\n        sys.stderr.write(f\"error: {err}\\n\")\n        sys.exit(0)\n    except RecursionError as err:\n        # Each segment"),
 ])
 # (M23 "--pretty applied only when writing to stdout" was dropped: the statement asks for
 # "exactly the JSON array", not for a particular indentation, and the check now accepts any
@@ -154,7 +154,7 @@ mut("M25", "C20", "query file not stripped", [
     (P + "cli.py", "        query = args.query_file.read().strip()", "        query = args.query_file.read().rstrip(\"\\n\")"),
 ])
 mut("M26", "C20", "a handler that prints the traceback itself", [
-    (P + "cli.py", "    except JSONPathError as err:\n        if args.debug:\n            raise\n        sys.stderr.write(f\"error: {err}\\n\")\n        sys.exit(1)\n\n    try:\n        data", "    except JSONPathError as err:\n        if args.debug:\n            raise\n        import traceback\n\n        traceback.print_exc()\n        sys.stderr.write(f\"error: {err}\\n\")\n        sys.exit(1)\n\n    try:\n        data"),
+    (P + "cli.py", "    except JSONPathError as err:\n        if args.debug:\n            raise\n        sys.stderr.write(f\"error: {err}\\n\")\n        sys.exit(1)\n    except RecursionError as err:\n        # The parser", "    except JSONPathError as err:\n        if args.debug:\n            raise\n        import traceback\n\n        traceback.print_exc()\n        sys.stderr.write(f\"error: {err}\\n\")\n        sys.exit(1)\n    except RecursionError as err:\n        # The parser"),
 ])
 mut("M27", "C20", "document decode errors of the UTF-8 kind escape again", [
     (P + "cli.py", "    except (ValueError, RecursionError) as err:", "    except (json.JSONDecodeError, RecursionError) as err:"),
